@@ -5,7 +5,7 @@
 // step of its own).
 //
 // header: {"H":["h1",..],"ctor":"h1"}
-// first step: Setup(mode, rkind)   mode: fn|fnsync|retfut|async|asyncsync|setval|setexc|late
+// first step: Setup(mode, rkind)   mode: fn|fnsync|retfut|async|asyncsync|setval|setexc|late|shl
 //                                  rkind: val|exc|drop|dtor|final|none
 //   builds the world: the constructing thread runs its constructor up to the first scheduling point
 // other step labels: Action(thread[,thread])   threads: "r" (resolver), the names in H
@@ -283,6 +283,13 @@ static void construct(World &w, TS &me) {
         new (s.buf) SF(SF::set_value(3));
     } else if (w.mode == "setexc") {
         new (s.buf) SF(SF::set_exception(std::make_exception_ptr(TestExc(3))));
+    } else if (w.mode == "shl") {
+        // default constructed, initialised, then `f << function returning a pending future`
+        new (s.buf) SF();
+        s.get()->init_if_needed();
+        *s.get() << [pw]() -> Base {
+            return Base([pw](cocls::promise<Counted> p) { pw->p.emplace(std::move(p)); });
+        };
     } else {   // late: default constructed
         new (s.buf) SF();
     }
@@ -643,6 +650,21 @@ static void run(const Scenario &sc, Reporter &rep) {
     }
     // finish: paths end in terminal states (everything dropped, resolver done, threads idle)
     for (auto &kv : w.ts) kv.second->cmd = "exit";
+    if (w.have_probe && w.rkind != "none" && std::string(state_of(w)) == "freed" && !(w.r_spawned && w.sched.done(w.tid["r"]))) {
+        // The state has been destroyed although its promise is still to be resolved (only a counterexample of
+        // the as-found model of operator<< ends here, or a run that already diverged): every further step of
+        // the resolver would write into freed memory.  Finish the handle threads only, never run the
+        // resolver, disarm the promise (its destructor would resolve the dead future) and leak the world.
+        for (int round = 0; round < 64; round++)
+            for (auto &kv : w.ts) { int t = w.tid[kv.first]; if (!w.sched.done(t) && w.sched.enabled(t)) w.sched.step(t); }
+        w.sched.uninstall();
+        if (w.p.has_value()) {
+            void *leak = malloc(sizeof(cocls::promise<Counted>));
+            new (leak) cocls::promise<Counted>(std::move(*w.p));
+        }
+        w.sched.join_all();
+        return;
+    }
     bool drained = w.sched.drain();
     if (!drained && !bad) { rep.diverge(sc.steps.size() - 1, "deadlock: threads blocked at the end of the schedule got=" + project(w).dump()); bad = true; }
     if (drained && !bad) {
